@@ -309,7 +309,9 @@ def run(ctx):
                 break
             targets = contract.get(py)
             if targets is None:
-                ctx.unrecognised(r1, f, opt, f"option not in the contract table for `{f.name}` (new option: extend CONTRACT)")
+                # an option the documentation of the pinned release does not have: nothing to compare it with; it IS read by the
+                # command (tested above), and every documented option is still required below
+                ctx.holds(r1, site, "a new option (not in the contract table of documented options): declared, in the signature, read by the command")
                 continue
             for callee, formal in targets:
                 ok, why = _reaches(repo, f, fd, deps, py, callee, formal, value_typed=_value_typed(deco) and callee != "set_backend")  # --optimizer names a class that is looked up
@@ -323,6 +325,10 @@ def run(ctx):
                         f"option `{opt}` of `pyhf {f.name}` does not reach {callee}({formal or ''}): {why}",
                         expected=f"{callee}(..., {formal}=<derived from {py}>)" if formal else callee, found=why, node=f.node,
                     )
+        if contract is not None:
+            gone = sorted(set(contract) - {py_ for _, py_, _, _ in params})
+            if gone:
+                ctx.violated(r1, f, f"documented option(s) {gone}", f"`pyhf {f.name}` no longer declares the documented option(s) bound to {gone}: a command line that used them is refused", expected=f"options for {sorted(contract)}", found=f"options for {sorted(py_ for _, py_, _, _ in params)}", node=f.node)
         # ---- patches are applied cumulatively; the optimiser is installed after the last backend switch
         _cumulative_patches(ctx, r1, f)
         _optimizer_after_backend(ctx, r1, f)
